@@ -308,9 +308,41 @@ where
     Ok(())
 }
 
+/// The same workload in one process, for the valgrind memcheck stage
+pub struct C10V;
+
+impl Prop for C10V {
+    fn id(&self) -> &'static str {
+        "C10V"
+    }
+    fn mode(&self) -> Mode {
+        Mode::Threads
+    }
+    fn workers(&self) -> usize {
+        1
+    }
+    fn n_cases(&self, tier: Tier) -> u64 {
+        tier.pick(6, 120)
+    }
+    fn time_cap_s(&self, tier: Tier) -> u64 {
+        tier.pick(120, 900)
+    }
+    fn run_case(&self, case: u64, rng: &mut Rng, st: &mut Stats, tier: Tier) {
+        C10.run_case(case, rng, st, tier)
+    }
+    fn rule(&self) -> String {
+        "C10 workload under valgrind memcheck".into()
+    }
+}
+
 impl Prop for C10 {
     fn id(&self) -> &'static str {
         "C10"
+    }
+    fn extra_stage(&self, st: &mut Stats, tier: Tier, seed: u64) {
+        // use-after-munmap of recycled code pages, uninitialised scratch
+        // lanes after reuse
+        crate::props::memcheck::run_memcheck_stage("C10V", st, tier, seed);
     }
     fn mode(&self) -> Mode {
         Mode::Children
